@@ -1271,3 +1271,113 @@ func sharedErrorsAs(c *an.Ctx, rule string, min int, prefixes ...string) {
 		c.Und(rule, "errors.As targets", token.NoPos, "only %d typed errors.As targets found, expected at least %d", n, min)
 	}
 }
+
+// sharedPoolBufferReset is the recycled-buffer rule: a *bytes.Buffer or
+// *strings.Builder taken from a pool still holds what its previous user wrote,
+// so a Reset on it must come before anything else is done with it.  The rule
+// visits every Pool.Get of such a type in the given packages and requires a
+// Reset call on the value that dominates every other use.  It returns the
+// number of Get sites examined.
+func sharedPoolBufferReset(c *an.Ctx, rule string, prefixes ...string) (examined int) {
+	isBuf := func(t types.Type) bool {
+		switch an.TypeName(t) {
+		case "bytes.Buffer", "strings.Builder":
+			_, isPtr := t.Underlying().(*types.Pointer)
+			return isPtr
+		}
+		return false
+	}
+	for _, fn := range c.AllFns {
+		if fn.Blocks == nil || c.IsTestFile(fn.Pos()) {
+			continue
+		}
+		k := an.FnKey(fn)
+		in := false
+		for _, p := range prefixes {
+			if strings.HasPrefix(k, p) {
+				in = true
+			}
+		}
+		if !in {
+			continue
+		}
+		for _, ci := range an.Calls(fn) {
+			call, ok := ci.(*ssa.Call)
+			if !ok || !isBuf(call.Type()) {
+				continue
+			}
+			n := an.CalleeName(call)
+			if !(strings.Contains(n, "Pool") && strings.HasSuffix(n, ".Get")) {
+				continue
+			}
+			examined++
+			c.Analysed(k)
+			key := k + " pooled buffer"
+			// uses of the value (through the local cell it may be spilled into)
+			vals := map[ssa.Value]bool{call: true}
+			if call.Referrers() != nil {
+				for _, r := range *call.Referrers() {
+					if st, ok := r.(*ssa.Store); ok && st.Val == ssa.Value(call) {
+						if al, ok := st.Addr.(*ssa.Alloc); ok && al.Referrers() != nil {
+							for _, rr := range *al.Referrers() {
+								if ld, ok := rr.(*ssa.UnOp); ok && ld.Op == token.MUL {
+									vals[ld] = true
+								}
+							}
+						}
+					}
+				}
+			}
+			var resets, uses []ssa.Instruction
+			for v := range vals {
+				if v.Referrers() == nil {
+					continue
+				}
+				for _, r := range *v.Referrers() {
+					switch u := r.(type) {
+					case ssa.CallInstruction:
+						if _, isDefer := u.(*ssa.Defer); isDefer {
+							continue
+						}
+						if cn := an.CalleeName(u); strings.HasSuffix(cn, ").Reset") && len(u.Common().Args) > 0 && u.Common().Args[0] == v {
+							resets = append(resets, u)
+						} else if strings.HasSuffix(cn, ".Put") {
+							// handing it back
+						} else {
+							uses = append(uses, u)
+						}
+					case *ssa.Store:
+						if u.Val == v {
+							if _, toLocal := u.Addr.(*ssa.Alloc); !toLocal {
+								uses = append(uses, u) // stored into an object that will write to it
+							}
+						}
+					case *ssa.MakeClosure:
+						// captured by a closure (the deferred Put)
+					}
+				}
+			}
+			bad := ""
+			for _, u := range uses {
+				dominated := false
+				for _, r := range resets {
+					if an.Dominates(r, u) {
+						dominated = true
+					}
+				}
+				if !dominated {
+					bad = c.Pos(u.Pos())
+				}
+			}
+			switch {
+			case len(resets) == 0:
+				c.Bad(rule, key, call.Pos(), "a buffer taken from a pool is used without Reset: it still holds what its previous user wrote, and that content is prepended to this user's")
+			case bad != "":
+				c.Bad(rule, key, call.Pos(), "the pooled buffer is used at %s before it is Reset", bad)
+			default:
+				c.Ok(rule, key, call.Pos(), "Reset before every other use (%d uses)", len(uses))
+			}
+		}
+	}
+	return examined
+}
